@@ -5,7 +5,7 @@ arguments, not from the attributes the constructor derived from them (edges_to_i
 edge_indexes_basic ...): those are recomputed by the Coq encoder and thereby compared."""
 import re
 from fractions import Fraction as F
-import common, lpdump, e1
+import common, lpdump, e1, errlib
 
 
 def internal_ignore_and_scale(args):
@@ -23,7 +23,7 @@ def internal_ignore_and_scale(args):
 def err_inst_tokens(m, ids, args):
     st = m.G
     t = e1.path_inst_tokens(m, ids)
-    t += e1.flow_tokens(st, ids, args["flow_attr"])
+    t += errlib.flow_tokens_py(st, ids, args["flow_attr"])
     ign, sc = internal_ignore_and_scale(args)
     ign = [e for e in ign if e[0] in ids and e[1] in ids]
     t += e1.edge_list_tokens(ign, ids)
